@@ -206,6 +206,29 @@ func (r *recorder) keepParams(ps []wire.Parameter) {
 	r.keptPs = append(r.keptPs, k)
 }
 
+// recorders of connections that are over: what their callbacks were handed is still retained by its holders
+var (
+	retiredMu sync.Mutex
+	retired   []*recorder
+)
+
+// keptIntact is checkKept without a report: for recorders whose connection is over
+func (r *recorder) keptIntact() (string, bool) {
+	for _, k := range r.keptPs {
+		for i, p := range k.ps {
+			if (p.Value() == nil) != k.null[i] || string(p.Value()) != string(k.vals[i]) || p.Format() != k.fmts[i] {
+				return fmt.Sprintf("parameter %d of a retained parameter slice", i+1), false
+			}
+		}
+	}
+	for _, k := range r.kept {
+		if (k.isB && string(k.b) != string(k.copy)) || (!k.isB && k.s != string(k.copy)) {
+			return fmt.Sprintf("%s (now %q, was %q)", k.what, k.s+string(k.b), k.copy), false
+		}
+	}
+	return "", true
+}
+
 func (r *recorder) checkKept(when string) {
 	for _, k := range r.keptPs {
 		for i, p := range k.ps {
@@ -681,6 +704,21 @@ func serveAsync(srv *wire.Server, conn *memConn, o *obsT) {
 
 func collect(conn *memConn, rec *recorder, o *obsT) {
 	rec.checkKept("at the end of the connection")
+	// data handed to the callbacks of EARLIER connections (closed by now) has survived this connection's traffic
+	retiredMu.Lock()
+	for _, old := range retired {
+		if what, ok := old.keptIntact(); !ok {
+			rec.bad("%s handed to a callback of an earlier, closed connection was overwritten by the traffic of a later connection", what)
+			break
+		}
+	}
+	if len(rec.kept)+len(rec.keptPs) > 0 {
+		retired = append(retired, rec)
+		if len(retired) > 6 {
+			retired = retired[1:]
+		}
+	}
+	retiredMu.Unlock()
 	if rec.armed != "" {
 		rec.bad("a %s deadline set on the connection was still armed while callbacks of the session ran: the session depends on the clock", rec.armed)
 	}
